@@ -22,7 +22,10 @@ pub proof fn axiom_candidates_have_no_dotdot()
 /// R5: `format!("self/task/{}", tid).into()`
 pub uninterp spec fn self_task_spec(tid: i32) -> Seq<u8>;
 #[verifier::external_body]
-pub fn self_task_path(tid: i32) -> (r: PathBuf) ensures r@ == self_task_spec(tid) { unimplemented!() }
+pub fn self_task_path(fmt: &str, tid: i32) -> (r: PathBuf)
+    requires fmt@ == "self/task/{}"@,            // [C09+C10.into_path.pre_3_17_fallback_is_self_task_tid]
+    ensures r@ == self_task_spec(tid)
+{ unimplemented!() }
 /// R6: `[a, b, c].into_iter().find(keep).unwrap_or_else(|| a')` with a' == a (std semantics, A7); the probe stays the code's closure
 #[verifier::external_body]
 pub fn first_existing_candidate<K: Fn(&PathBuf) -> bool>(a: PathBuf, b: PathBuf, c: PathBuf, keep: K) -> (r: PathBuf)
